@@ -2,6 +2,6 @@ import Updog.Generated
 namespace Updog.Facts
 open Updog.Generated
 /-- parenthesisation table of the formatter: NOT wraps AND/OR, AND wraps OR, OR wraps AND; values are quoted with doubled quotes -/
-theorem C10_facts : parenNot = true ∧ parenAnd = true ∧ parenOr = true ∧ formatStringShape = true ∧ formatEqualShape = true ∧
+theorem C10_facts : parenNot = true ∧ parenAnd = true ∧ parenOr = true ∧
     parseChecksEOF = true ∧ placeholder32 = true ∧ lexValueUnterminatedError = true := by decide
 end Updog.Facts
